@@ -850,7 +850,9 @@ func (h *c11Hist) checkMut(nprobes int) {
 		h.checkHas("mut", func(k val.Tuple) (bool, error) { return mut.Has(bg, k) }, p)
 		if !h.failed {
 			h.checkPrefix("mut", false,
-				func(k val.Tuple, pd *val.TupleDesc, cb func(k, v val.Tuple) error) error { return mut.GetPrefix(bg, k, pd, cb) },
+				func(k val.Tuple, pd *val.TupleDesc, cb func(k, v val.Tuple) error) error {
+					return mut.GetPrefix(bg, k, pd, cb)
+				},
 				func(k val.Tuple, pd *val.TupleDesc) (bool, error) { return mut.HasPrefix(bg, k, pd) }, p)
 		}
 	}
@@ -933,7 +935,9 @@ func (h *c11Hist) checkMap(m prolly.Map, nprobes int) {
 			return
 		}
 		h.checkPrefix("map", true,
-			func(k val.Tuple, pd *val.TupleDesc, cb func(k, v val.Tuple) error) error { return m.GetPrefix(bg, k, pd, cb) },
+			func(k val.Tuple, pd *val.TupleDesc, cb func(k, v val.Tuple) error) error {
+				return m.GetPrefix(bg, k, pd, cb)
+			},
 			func(k val.Tuple, pd *val.TupleDesc) (bool, error) { return m.HasPrefix(bg, k, pd) }, p)
 		// ordinal of a key (present or absent)
 		h.q("c11/map/GetOrdinalForKey", fmtVals(p.vals))
@@ -1062,4 +1066,3 @@ func (h *c11Hist) checkConstructors(m prolly.Map) {
 		h.st.add("c11.q.map.RangeConstructors", 1)
 	}
 }
-
